@@ -48,10 +48,13 @@ func verifC13LazyCompile(from, count, L int) {
 	for i := from; i < from+count; i++ {
 		cold := verifNativeRule(i)
 		warm := verifNativeRule(i)
+		// the warm-up request and the request under test are of arbitrary kinds (URL or hostname request)
 		u0 := verifString(vn("w", i, ""), 3, verifPrintable)
-		_ = warm.matchPattern(&Request{URL: u0, URLLowerCase: strings.ToLower(u0)})
+		h0 := verifString(vn("wh", i, ""), 2, verifHostChars)
+		_ = warm.matchPattern(&Request{URL: u0, URLLowerCase: strings.ToLower(u0), Hostname: h0, IsHostnameRequest: verifBool(vn("w.hr", i, ""))})
 		u := verifString(vn("u", i, ""), L, verifPrintable)
-		req := &Request{URL: u, URLLowerCase: strings.ToLower(u)}
+		h := verifString(vn("h", i, ""), 2, verifHostChars)
+		req := &Request{URL: u, URLLowerCase: strings.ToLower(u), Hostname: h, IsHostnameRequest: verifBool(vn("q.hr", i, ""))}
 		a := cold.matchPattern(req)
 		b := warm.matchPattern(req)
 		c := warm.matchPattern(req)
